@@ -189,6 +189,28 @@ def lifecycle(spec, log):
                 pass
         if spec.get('expect_point') and spec.get('inject_action') == 'pause':
             open(os.path.join(d, 'resume'), 'w').close()
+        via = spec.get('observe_via', 'wait')
+        if via == 'poll':
+            # death is first observed by polling is_alive() - no wait() in progress while the child runs
+            t0p = time.monotonic()
+            polled = None
+            while time.monotonic() - t0p < spec.get('wait_timeout', 20):
+                polled = bounded('poll_is_alive', lambda: w.is_alive(), 15)
+                if polled is False or polled is HANG or isinstance(polled, Raised):
+                    break
+                time.sleep(0.01)
+            log.ev('polled', last=(polled if isinstance(polled, bool) else repr(polled)))
+        elif via == 'late':
+            # the child has exited (OS level) before the parent looks at it for the first time
+            t0p = time.monotonic()
+            while time.monotonic() - t0p < spec.get('wait_timeout', 20):
+                if wid[1] != os.getpid():
+                    if not pid_running(wid[1]):
+                        break
+                elif not w._child.is_alive():
+                    break
+                time.sleep(0.01)
+            time.sleep(0.1)
         dead = bounded('wait', lambda: w.wait(spec.get('wait_timeout', 20)), spec.get('wait_timeout', 20) + 30)
         log.ev('death', dead=(dead is True), pid_running=(pid_running(wid[1]) if wid[1] != os.getpid() else None))
         obs = []
